@@ -51,7 +51,9 @@ class QuadratureRule:
             This identifier is used to provide unique names to tables and symbols
             in generated code.
         """
-        return self.hash_obj.hexdigest()[-3:]
+        # Three hex digits are too few: e.g. the default rules of degree 15 and 26
+        # on a triangle share their last three digits
+        return self.hash_obj.hexdigest()[-8:]
 
 
 def create_quadrature_points_and_weights(
